@@ -5,19 +5,20 @@
    "Init" record starts a new execution.  Every record is consumed by exactly one step, all
    monitors are evaluated on it, failures are accumulated (never block the run) and the
    summary is printed as a RESULT line at the end. *)
-EXTENDS SynthProps, Json, IOUtils
+EXTENDS Synth, Json, IOUtils
 
 T == ndJsonDeserialize(IOEnv.TRACE)
 MaxFails == 12
 
-VARIABLES l, h, pre, fails, cnt, exec
-vars == <<l, h, pre, fails, cnt, exec>>
+VARIABLES l, h, pre, fails, cnt, exec, xi, drift
+vars == <<l, h, pre, fails, cnt, exec, xi, drift>>
 
 Cnt0 == [steps |-> 0, execs |-> 0, noteon |-> 0, c05on |-> 0, c05nonempty |-> 0, c06idle |-> 0, c06full |-> 0,
          c06steal |-> 0, c12blank |-> 0, c12sound |-> 0, c12fallback |-> 0, c19valid |-> 0, c19invalid |-> 0,
-         quietchk |-> 0, users2 |-> 0, sustained |-> 0, drumlife |-> 0]
+         quietchk |-> 0, users2 |-> 0, sustained |-> 0, drumlife |-> 0, refined |-> 0, refskip |-> 0, drifted |-> 0]
 
 Init == l = 1 /\ h = [none |-> TRUE] /\ pre = [none |-> TRUE] /\ fails = <<>> /\ cnt = Cnt0 /\ exec = 0
+        /\ xi = [none |-> TRUE] /\ drift = <<>>
 
 Tag(p, S, ev) == { [p |-> p, w |-> x, l |-> l, x |-> exec, e |-> ev.e, d |-> ""] : x \in S }
 TagD(p, S, ev, d) == { [p |-> p, w |-> x, l |-> l, x |-> exec, e |-> ev.e, d |-> d] : x \in S }
@@ -28,6 +29,8 @@ IsNoteOn(ev) == ev.e = "NoteOn" /\ ev.v > 0
 StepInit(ev) ==
   /\ h' = RefInit({ ev.mch[i] : i \in DOMAIN ev.mch }, ev.bl, ev.s.nc, IF "devid" \in DOMAIN ev THEN ev.devid ELSE 0)
   /\ pre' = ev.s
+  /\ xi' = [lim |-> ev.xlim, rate |-> ev.rate, bl |-> ev.bl]
+  /\ drift' = drift
   /\ exec' = exec + 1
   /\ fails' = AddFails(Tag("C04", C04Fails(ev.s), ev))
   /\ cnt' = [cnt EXCEPT !.execs = @ + 1, !.steps = @ + 1]
@@ -44,7 +47,17 @@ StepCall(ev) ==
       f12 == IF IsNoteOn(ev) /\ known THEN Tag("C12", C12Fails(h, ev, s), ev) ELSE {}
       f19 == IF ev.e = "SysEx" THEN Tag("C19", C19Fails(h, ev, pre, s), ev) ELSE {}
       sd  == IF ev.e = "SysEx" THEN SysExDoc(ev.b, h.dev) ELSE Invalid
+      \* leg (C): the recorded step is a step of the model (stateless: from the logged pre-state)
+      doRef == Modelled(ev) /\ (ev.e = "Gen" => "pf" \in DOMAIN ev /\ Len(ev.pf) <= 16)
+      x1  == IF ev.e \in {"OpenBank"} /\ ev.r = 0 THEN [xi EXCEPT !.bl = ev.bl]
+             ELSE IF ev.e = "SetIns" /\ ev.r = 0 THEN [xi EXCEPT !.bl = h1.bl] ELSE xi
+      mres == IF doRef THEN Step(Lift(pre, xi), ev) ELSE [s |-> 0, r |-> 0]
+      dset == IF doRef THEN Diff(Proj(mres.s), s, IF ev.e = "Gen" THEN 2 + Len(ev.pf) ELSE 1) \cup
+                            (IF ev.e \in {"NoteOn", "SysEx", "SetDevId", "SetNumChips"} /\ mres.r # ev.r THEN {"ret"} ELSE {})
+              ELSE {}
   IN /\ h' = h1
+     /\ xi' = x1
+     /\ drift' = IF dset # {} /\ Len(drift) < 8 THEN Append(drift, [l |-> l, x |-> exec, e |-> ev.e, d |-> ToString(dset)]) ELSE drift
      /\ pre' = s
      /\ exec' = exec
      /\ fails' = AddFails(f04 \cup f05 \cup f06 \cup f12 \cup f19)
@@ -66,11 +79,14 @@ StepCall(ev) ==
           !.quietchk = @ + (IF h1.quiet >= 30010 THEN 1 ELSE 0),
           !.users2 = @ + (IF \E ci \in DOMAIN s.ch : Len(s.ch[ci].u) > 1 THEN 1 ELSE 0),
           !.sustained = @ + (IF \E ci \in DOMAIN s.ch : \E ui \in DOMAIN s.ch[ci].u : s.ch[ci].u[ui].s # 0 THEN 1 ELSE 0),
-          !.drumlife = @ + (IF h1.life # <<>> THEN 1 ELSE 0)]
+          !.drumlife = @ + (IF h1.life # <<>> THEN 1 ELSE 0),
+          !.refined = @ + (IF doRef THEN 1 ELSE 0),
+          !.refskip = @ + (IF doRef THEN 0 ELSE 1),
+          !.drifted = @ + (IF dset # {} THEN 1 ELSE 0)]
 
 StepCrash(ev) ==
   /\ fails' = AddFails({[p |-> "CRASH", w |-> ev.stage, l |-> l, x |-> exec, e |-> "Crash", d |-> ""]})
-  /\ UNCHANGED <<h, pre, cnt, exec>>
+  /\ UNCHANGED <<h, pre, cnt, exec, xi, drift>>
 
 Next ==
   \/ /\ l <= Len(T)
@@ -78,12 +94,12 @@ Next ==
      /\ LET ev == T[l] IN
         CASE ev.e = "Init"  -> StepInit(ev)
           [] ev.e = "Crash" -> StepCrash(ev)
-          [] ev.e = "End"   -> UNCHANGED <<h, pre, fails, cnt, exec>>
+          [] ev.e = "End"   -> UNCHANGED <<h, pre, fails, cnt, exec, xi, drift>>
           [] OTHER          -> StepCall(ev)
   \/ /\ l = Len(T) + 1
      /\ l' = l + 1
-     /\ PrintT(<<"RESULT", ToJson([n |-> Len(T), fails |-> fails, cnt |-> cnt])>>)
-     /\ UNCHANGED <<h, pre, fails, cnt, exec>>
+     /\ PrintT(<<"RESULT", ToJson([n |-> Len(T), fails |-> fails, cnt |-> cnt, drift |-> drift])>>)
+     /\ UNCHANGED <<h, pre, fails, cnt, exec, xi, drift>>
 
 Spec == Init /\ [][Next]_vars
 =============================================================================
